@@ -194,8 +194,10 @@ def check_index_lambda(h, il, node, spec, arrays: ArrayModel, *,
 
 def oblige_equal_den(h, clause, box, got, want, *, props):
     if isinstance(want, Reduction) != isinstance(got, Reduction):
-        h.fail(clause, "reduction structure differs from the definition",
-               props=props)
+        # one side shows the reduction at top level, the other inside a term
+        # (e.g. behind a copy): compare as terms
+        h.oblige(clause, z3.Implies(box, as_int(got) == as_int(want)),
+                 props=props)
         return
     if not isinstance(got, Reduction):
         h.oblige(clause, z3.Implies(box, as_int(got) == as_int(want)),
